@@ -463,6 +463,13 @@ def observe_sol(variables):
     return [sol_tok(v.sol) for v in variables]
 
 
+def stale_sols(variables):
+    """leave recognisable garbage in the sol fields, so that 'every sol is reset' is observed"""
+    from cspuz.expr import BoolVar
+    for v in variables:
+        v.sol = (v.id % 2 == 0) if isinstance(v, BoolVar) else 777 + v.id
+
+
 def run_solver_flow(ctx, m, solver, backend, deduction, responder):
     """Solver.find_answer / Solver.solve with fakes installed.  Returns (outcome, calls, posted):
     outcome = ("ok", [ret, sols...]) | ("err", name); calls = recorded (entry, args, text);
@@ -485,8 +492,7 @@ def run_solver_flow(ctx, m, solver, backend, deduction, responder):
         posted_before_call.append(list(extra))
         return responder(i, text)
 
-    for v in solver.variables:
-        v.sol = None
+    stale_sols(solver.variables)
     with Fakes(resp) as fk:
         sl.SugarLikeBackend.add_constraint = spy_add
         try:
@@ -540,8 +546,8 @@ def correspond(ctx):
     m = ctx.model("C03")
     rng = ctx.rng
     ctx._c03 = []  # material for search
-    n_prog = 1500 if ctx.thorough else 260
-    n_mal = 400 if ctx.thorough else 80
+    n_prog = 4000 if ctx.thorough else 600
+    n_mal = 1000 if ctx.thorough else 150
     kinds = {b: kind_info(m, b) for b in BACKENDS}
     from cspuz.configuration import config
 
@@ -671,6 +677,7 @@ def direct_api(ctx, m, rng, solver):
         for c in cons[split:]:
             b.add_constraint(c)
         return b.solve_irrefutably(keys) if deduction else b.solve()
+    stale_sols(variables)
     with Fakes(responder) as fk:
         with warnings.catch_warnings():
             warnings.simplefilter("ignore")
@@ -849,18 +856,80 @@ def search(ctx):
                             "%s:%s" % (backend, "solve" if deduction else "find_answer"))
 
 
+def solver_of_state(text):
+    """rebuild a Solver from the exprio state syntax  V [ decls ] K [ flags ] C [ exprs ]"""
+    from cspuz import Solver
+    t = text.split()
+    i = t.index("V") + 2
+    s = Solver()
+    while t[i] != "]":
+        if t[i] == "b":
+            s.bool_var()
+        else:
+            _, lo, hi = t[i].split(":")
+            s.int_var(int(lo), int(hi))
+        i += 1
+    i = t.index("K", i) + 2
+    flags = []
+    while t[i] != "]":
+        flags.append(t[i] == "1")
+        i += 1
+    s.is_answer_key = flags
+    i = t.index("C", i) + 2
+    depth, cur = 0, []
+    while i < len(t) - 1 or depth:
+        tok = t[i]
+        if tok == "]" and depth == 0:
+            break
+        cur.append(tok)
+        if tok == "(":
+            depth += 1
+        elif tok == ")":
+            depth -= 1
+        if depth == 0:
+            s.constraints.append(exprio.parse(" ".join(cur), s.variables))
+            cur = []
+        i += 1
+    return s
+
+
 def replay(ctx, rp):
     print(rp)
-    v = rp.get("violation", {}).get("detail", {})
-    if "constraint" in v:
-        import cspuz.backend.sugar_like as sl
-        m = ctx.model("C03")
-        e = exprio.parse(v["constraint"])
-        text = sl._convert_expr(e)
-        asg = v["assignment"]
-        sem = m.call("SEMT %s %s" % (hexs(text), pairs_tok(asg)))
-        ev = m.call("EVAL %s %s" % (pairs_tok(asg), exprio.show_list([e])))
-        print("text:", text, " meaning of text:", sem, " meaning of tree:", ev)
+    viol = rp.get("violation", {})
+    v = viol.get("detail", {})
+    m = ctx.model("C03")
+    try:
+        if "constraint" in v:
+            import cspuz.backend.sugar_like as sl
+            e = exprio.parse(v["constraint"])
+            text = sl._convert_expr(e)
+            asg = v["assignment"]
+            sem = m.call("SEMT %s %s" % (hexs(text), pairs_tok(asg)))
+            ev = m.call("EVAL %s %s" % (pairs_tok(asg), exprio.show_list([e])))
+            print("text:", text, " meaning of text:", sem, " meaning of tree:", ev)
+            return 1 if sem.split()[1:] != ev.split()[1:] else 0
+        if "program" in v:
+            parts = viol.get("key", "").split(":")
+            backend = parts[1] if len(parts) > 2 and parts[1] in BACKENDS else "cspuz_core"
+            deduction = len(parts) > 2 and parts[2] == "solve"
+            solver = solver_of_state(v["program"])
+            asg = v.get("assignment") or gen_assignment(ctx.rng, solver.variables)
+            refuted = v.get("refuted", [])
+            sat = "assignment" not in v or v.get("assignment") is not None
+
+            def responder(i, text):
+                return java_reply(m, text, asg if sat else None, refuted) or "s UNSATISFIABLE\n"
+            out, calls, _ = run_solver_flow(ctx, m, solver, backend, deduction and backend != "sugar", responder)
+            print("outcome:", out)
+            if calls:
+                print("text handed to the solver:\n" + calls[0][2])
+                rec = dict(solver=solver, backend=backend, deduction=deduction, text=calls[0][2],
+                           asg=asg if sat else None, refuted=refuted, out=out, tag=v["program"])
+                check_reply_property(ctx, rec)
+                check_text_property(ctx, m, ctx.rng, solver, calls[0][2], deduction, "replay")
+            for x in ctx.violations:
+                print("VIOLATION reproduced:", x["what"], x["detail"])
+            return 1 if ctx.violations or not calls else 0
+    finally:
         m.close()
-        return 1 if sem.split()[1:] != ev.split()[1:] else 0
     return 1 if v else 0
